@@ -263,7 +263,8 @@ DIGEST_FUNCS = [("cryocat/ioutils.py", "tlt_load"), ("cryocat/ioutils.py", "tota
                 ("cryocat/ioutils.py", "indices_load"), ("cryocat/ioutils.py", "one_value_per_line_read"),
                 ("cryocat/mdoc.py", "Mdoc.__init__"), ("cryocat/mdoc.py", "Mdoc.remove_image"), ("cryocat/mdoc.py", "Mdoc.remove_images"),
                 ("cryocat/mdoc.py", "Mdoc.kept_images"), ("cryocat/mdoc.py", "Mdoc.removed_images"), ("cryocat/mdoc.py", "Mdoc.get_image_feature"),
-                ("cryocat/mdoc.py", "remove_images"), ("cryocat/mdoc.py", "sort_mdoc_by_tilt_angles"),
+                ("cryocat/mdoc.py", "remove_images"), ("cryocat/mdoc.py", "sort_mdoc_by_tilt_angles"), ("cryocat/mdoc.py", "get_tilt_angles"),
+                ("cryocat/ioutils.py", "dimensions_load"), ("cryocat/ioutils.py", "z_shift_load"), ("cryocat/ioutils.py", "imod_com_read"),
                 ("cryocat/wedgeutils.py", "check_data_consistency"), ("cryocat/wedgeutils.py", "load_wedge_list_sg")]
 
 
@@ -512,10 +513,18 @@ def translate(src):
     def em_minmax():
         fn = find(W, "create_wedge_list_em_batch")
         t = _alpha(fn).replace(" ", "")
-        # locals in binding order: v0 table, v1 tomograms, v2 list of minima, v3 list of maxima, v4 loop variable, v5 file name, v6 tilts
-        ok = "v2.append(np.min(v6))" in t and "v3.append(np.max(v6))" in t and \
-             "v0['min_angle']=np.asarray(v2)" in t and "v0['max_angle']=np.asarray(v3)" in t and "v0['tomo_num']=v1" in t and \
-             "v6=ioutils.tlt_load(v5).astype(np.single)" in t and "v1=ioutils.tlt_load(tomo_list).astype(int)" in t
+        # back-references instead of fixed alpha-names (round 7): the order in which the two lists are created does not matter
+        mt = re.search(r"(\w+)=ioutils\.tlt_load\((\w+)\)\.astype\(np\.single\)", t)
+        mn = re.search(r"(\w+)\.append\(np\.min\((\w+)\)\)", t)
+        mx = re.search(r"(\w+)\.append\(np\.max\((\w+)\)\)", t)
+        tm = re.search(r"(\w+)=ioutils\.tlt_load\(tomo_list\)\.astype\(int\)", t)
+        ok = bool(mt and mn and mx and tm) and mn.group(2) == mt.group(1) == mx.group(2) and mn.group(1) != mx.group(1)
+        if ok:
+            lo, hi = mn.group(1), mx.group(1)
+            a = re.search(r"(\w+)\['min_angle'\]=np\.asarray\(" + lo + r"\)", t)
+            b = re.search(r"(\w+)\['max_angle'\]=np\.asarray\(" + hi + r"\)", t)
+            ok = bool(a and b) and a.group(1) == b.group(1) and (a.group(1) + "['tomo_num']=" + tm.group(1)) in t \
+                and (lo + "=[]") in t and (hi + "=[]") in t and re.search(r"for(\w+)in" + tm.group(1) + ":", t) is not None
         if not ok:
             raise core.AnchorMissing("min/max collection rewritten")
         return True
@@ -1016,15 +1025,22 @@ def _tilt_texts(rng, n, odd=True):
 
 def _respell(rng, t):
     """another decimal spelling of the same number (strict-model forms only: [-]digits[.digits])"""
+    # only texts of the form -?digits[.digits] / -?.digits are respelled; the float()-only spellings `_tilt_texts` may hand over (`+5`, `-3E-2`,
+    # `+.5`, `2.5E+1`) are REPEATED as they are (round 7, item 2: `3E-2.` / `0+.5` crashed the generator on seeds 316, 713, 1893, thorough 91)
+    if not re.fullmatch(r"-?(\d+\.?\d*|\.\d+)", t):
+        return t
     neg = t.startswith("-")
     b = t.lstrip("-")
     if _tilt_fraction(t) == 0 and rng.random() < 0.5:
-        return rng.choice(["0", "-0", "0.0", "-0.0", "00"])        # -0.0 == 0.0: equal keys, different cells
-    if "." in b:
-        b = rng.choice([b + "0", "0" + b, b + "00"]) if not b.startswith(".") else "0" + b
+        new = rng.choice(["0", "-0", "0.0", "-0.0", "00"])        # -0.0 == 0.0: equal keys, different cells
     else:
-        b = rng.choice([b + ".0", b + ".", "0" + b, b + ".00"])
-    return ("-" if neg else "") + b
+        if "." in b:
+            b = rng.choice([b + "0", "0" + b, b + "00"]) if not b.startswith(".") else "0" + b
+        else:
+            b = rng.choice([b + ".0", b + ".", "0" + b, b + ".00"])
+        new = ("-" if neg else "") + b
+    assert _tilt_fraction(new) == _tilt_fraction(t), (t, new)
+    return new
 
 
 def _tie_tilts(rng, tilts):
@@ -1278,6 +1294,8 @@ def _try(f):
         return _exc(e)
 
 
+# spec / corr discipline (round 7): clauses the statement is SILENT about - a caller-owned input edited in place, the dtype of a result, the row
+# index of a returned table, which exception a refusal raises - are `corr`; `spec` is kept for the clauses of the statement itself
 def _raised(r, clause, detail, kind="spec", **kw):
     """finding for an observation {"raise": …}: `kind` when cryoCAT code was on the stack, else corr/harness-or-library-raised"""
     if r.get("in_cryocat", True):
@@ -1366,6 +1384,24 @@ def run_mdoc(case):
                 return [_canon_cell(x) for x in a.tolist()]
             out["dose"] = _try(dose)
         out["tilts"] = _try(lambda: _floats(ioutils.tlt_load(p, False), dts, "tilts"))
+
+        def gta():
+            # the console-level mdoc.get_tilt_angles(path, output_file): the TiltAngle column in file order, also written one value per line
+            q = os.path.join(td, "angles.tlt")
+            a = mdoc.get_tilt_angles(p, output_file=q)
+            return dict(ret=_floats(a), file=[l.strip() for l in open(q).read().split("\n") if l.strip()],
+                        ret_no_file=(_floats(mdoc.get_tilt_angles(p)) if small else None))
+        small = len(out["parsed"]["rows"]) <= 12       # every extra Mdoc(path) costs one pd.concat per image: the second forms only on small files
+        out["get_tilt_angles"] = _try(gta)
+
+        def script_sort():
+            # the console-level mdoc.sort_mdoc_by_tilt_angles(path, reset_z_value, output_file) (round 7, item 4: was pinned by a digest only)
+            reset = len(case["text"]) % 2 == 0
+            q = os.path.join(td, "sorted.mdoc")
+            sm = mdoc.sort_mdoc_by_tilt_angles(p, reset_z_value=reset, output_file=q)
+            return dict(reset=reset, rows=_canon_mdoc(sm)["rows"], reread=_try(lambda: _canon_mdoc(mdoc.Mdoc(q))))
+        if small:
+            out["script_sort"] = _try(script_sort)
         out["tilts_sorted"] = _try(lambda: _floats(ioutils.tlt_load(p), dts, "tilts_sorted"))
     return out
 
@@ -1448,17 +1484,22 @@ def _same_object(a, b, ignore_flags=False):
 
 def _k1_only(a, b):
     """True when the ONLY differences between object a and its re-read b are floats of the exponent-form class that came back as the
-    text Python printed for them (class of the known finding C17-K1)."""
+    text Python printed for them (class of the known finding C17-K1). Images are compared on their ENTRIES key -> value (a NaN cell = the
+    image has no such key), as `_same_images` does - not on the column list: when the first written section lacks a key, the re-read table
+    carries that column last, which is no difference between the two files' images (round 7, item 1: false alarm on seeds 105, 137, ...)."""
     if "raise" in a or "raise" in b:
         return False
-    if [x[0] for x in a["info"]] != [x[0] for x in b["info"]] or a["titles"] != b["titles"] or a["sid"] != b["sid"] or a["cols"] != b["cols"] \
-            or len(a["rows"]) != len(b["rows"]):
+    if [x[0] for x in a["info"]] != [x[0] for x in b["info"]] or a["titles"] != b["titles"] or a["sid"] != b["sid"] or len(a["rows"]) != len(b["rows"]):
         return False
     pairs = [(x[1], y[1]) for x, y in zip(a["info"], b["info"])]
     for x, y in zip(a["rows"], b["rows"]):
         if x["z"] != y["z"]:
             return False
-        pairs += list(zip(x["cells"], y["cells"]))
+        ex = {c: v for c, v in zip(a["cols"], x["cells"]) if not _is_nan_cell(v)}
+        ey = {c: v for c, v in zip(b["cols"], y["cells"]) if not _is_nan_cell(v)}
+        if set(ex) != set(ey):
+            return False
+        pairs += [(ex[c], ey[c]) for c in ex]
     diff = [(u, v) for u, v in pairs if u != v]
     if not diff:
         return False
@@ -1529,8 +1570,10 @@ def _judge_written(case, obs, A, same=None):
     else:
         W = dict(A, rows=want)
         d = same(W, R, ignore_flags=True)
-        if d and not _k1_only(W, R):   # K1-only differences are reported once, by the round-trip clause
-            out.append(dict(kind="spec", clause="written-omits-removed", detail="re-read of the written file: " + d))
+        if d:
+            # a difference that consists ONLY of exponent-form floats re-read as text is the open finding C17-K1 showing in the written file
+            # (k1 flag: classified as C17-K1, exactly when every differing entry is such a change)
+            out.append(dict(kind="spec", clause="written-omits-removed", detail="re-read of the written file: " + d, k1=_k1_only(W, R)))
     return out
 
 
@@ -1655,7 +1698,35 @@ def judge_mdoc(case, obs, resp):
     tl = [Fraction(r["cells"][ti][1]) for r in P["rows"]]
     for key, dt in obs.get("dtypes", {}).items():
         if not _numeric_dtype(dt):
-            out.append(dict(kind="spec", clause="loader-dtype", detail=f"{key} of the mdoc comes back with dtype {dt}, not a numeric one"))
+            out.append(dict(kind="corr", clause="loader-dtype", detail=f"{key} of the mdoc comes back with dtype {dt}, not a numeric one"))
+    g = obs.get("get_tilt_angles")
+    if isinstance(g, dict):
+        if "raise" in g:
+            out.append(_raised(g, "get-tilt-angles", g["raise"]))
+        else:
+            def fr(xs):
+                try:
+                    return [Fraction(x) for x in xs]
+                except (ValueError, ZeroDivisionError):
+                    return None
+            if fr(g["ret"]) != tl or (g["ret_no_file"] is not None and fr(g["ret_no_file"]) != tl):
+                out.append(dict(kind="spec", clause="get-tilt-angles", detail=f"mdoc.get_tilt_angles returns {g['ret'][:6]}, the TiltAngle entries of the file are {[float(x) for x in tl[:6]]}"))
+            elif fr(g["file"]) != tl:
+                out.append(dict(kind="spec", clause="get-tilt-angles", detail=f"the file written by mdoc.get_tilt_angles(output_file=...) holds {g['file'][:6]}, the TiltAngle entries are {[float(x) for x in tl[:6]]}"))
+    ss = obs.get("script_sort")
+    if isinstance(ss, dict) and not case.get("odd") and None not in [_tilt_of(r, ti) for r in P["rows"]]:
+        if "raise" in ss:
+            out.append(_raised(ss, "script-sort", "sort_mdoc_by_tilt_angles: " + ss["raise"]))
+        else:
+            st = [dict(k="sort", reset=ss["reset"])]
+            rp2 = _replay(P, st, [ss["rows"]], "sort_mdoc_by_tilt_angles: ")
+            out += rp2["findings"]
+            if ss["reset"] and [r["z"] for r in ss["rows"]] != [["i", str(k)] for k in range(len(ss["rows"]))]:
+                out.append(dict(kind="corr", clause="script-sort-reset", detail="sort_mdoc_by_tilt_angles(reset_z_value=True): the section values are not renumbered 0..n-1"))
+            if not rp2["findings"] and "rows" in ss.get("reread", {}):
+                d = _same_object(dict(P, rows=ss["rows"]), ss["reread"], ignore_flags=True)
+                if d and not _k1_only(dict(P, rows=ss["rows"]), ss["reread"]):
+                    out.append(dict(kind="spec", clause="script-sort", detail="the file written by sort_mdoc_by_tilt_angles(output_file=...) re-read: " + d))
     for key, want in (("tilts", tl), ("tilts_sorted", sorted(tl))):
         got = obs[key]
         if isinstance(got, dict):
@@ -2020,8 +2091,10 @@ def gen_wedge(rng, tier):
     case = dict(kind="wedge", tomos=tomos, ctf=ctf, dose=dose, phase=(rng.random() < 0.5),
                 consts=dict(pixel=rng.choice(["1.327", "2.176", "10.8", "1"]), voltage=rng.choice(["300.0", "200.0"]), amp=rng.choice(["0.07", "0.1"]),
                             cs=rng.choice(["2.7", "2.0"])),
-                tomo_list=rng.choice(["array", "file", "list"]), dims_mode=rng.choice(["array", "file", "single", "files"]),
-                z_mode=rng.choice(["array", "file", "scalar", "files"]), tlt_from_mdoc=(dose == "mdoc" and rng.random() < 0.5))
+                tomo_list=rng.choice(["array", "file", "list"]), dims_mode=rng.choice(["array", "file", "single", "files", "com"]),
+                z_mode=rng.choice(["array", "file", "scalar", "files", "com"]), tlt_from_mdoc=(dose == "mdoc" and rng.random() < 0.5))
+    # "com" (round 7, item 3): one IMOD tilt.com per tomogram, named by tomo_dim_file_format / z_shift_file_format - dimensions from FULLIMAGE x y and
+    # THICKNESS z, z-shift from the SECOND number of SHIFT (the first is the x-shift: written as a decoy)
     # "files": one dimension / z-shift file PER TOMOGRAM, named by tomo_dim_file_format / z_shift_file_format (M-8)
     # audit item 6: tilt FILES in acquisition (unsorted) order - tlt_load re-sorts them, ctf / dose lists stay in file order, the
     # i-th ascending tilt is paired with the i-th defocus / exposure of the files
@@ -2304,9 +2377,21 @@ def run_wedge(case):
             dims = None
             for tm in tomos:
                 open(os.path.join(td, f"{tm['id']:03d}_dims.txt"), "w").write(" ".join(tm["dims"]) + "\n")
+        elif case["dims_mode"] == "com":
+            dims = None
         else:
             dims = [int(x) for x in tomos[0]["dims"]]
-        if case["z_mode"] == "files":
+        if "com" in (case["dims_mode"], case["z_mode"]):
+            for tm in tomos:
+                # what is NOT read from the .com file in this case carries decoy values
+                d3 = tm["dims"] if case["dims_mode"] == "com" else ["11", "12", "13"]
+                zc = tm["z"] if case["z_mode"] == "com" else "77.5"
+                open(os.path.join(td, f"{tm['id']:03d}_tilt.com"), "w").write(
+                    "# Command file to run Tilt\n$tilt -StandardInput\nInputProjections x.ali\n"
+                    f"FULLIMAGE {d3[0]} {d3[1]}\nTHICKNESS {d3[2]}\nIMAGEBINNED 1\nSHIFT {float(zc) + 3.5} {zc}\nXAXISTILT 0.0\n$if (-e ./savework) ./savework\n")
+        if case["z_mode"] == "com":
+            zs = None
+        elif case["z_mode"] == "files":
             zs = None
             for tm in tomos:
                 open(os.path.join(td, f"{tm['id']:03d}_zshift.txt"), "w").write(tm["z"] + "\n")
@@ -2326,12 +2411,12 @@ def run_wedge(case):
         for k, name in (("voltage", "voltage"), ("amp", "amp_contrast"), ("cs", "cs"), ("z_shift", "z_shift")):
             if k in omit:
                 del kw[name]
-        if case["dims_mode"] == "files":
+        if case["dims_mode"] in ("files", "com"):
             del kw["tomo_dim"]
-            kw["tomo_dim_file_format"] = os.path.join(td, "$xxx_dims.txt")
-        if case["z_mode"] == "files":
+            kw["tomo_dim_file_format"] = os.path.join(td, "$xxx_dims.txt" if case["dims_mode"] == "files" else "$xxx_tilt.com")
+        if case["z_mode"] in ("files", "com"):
             kw.pop("z_shift", None)
-            kw["z_shift_file_format"] = os.path.join(td, "$xxx_zshift.txt")
+            kw["z_shift_file_format"] = os.path.join(td, "$xxx_zshift.txt" if case["z_mode"] == "files" else "$xxx_tilt.com")
         if case["ctf"]:
             kw["ctf_file_format"] = os.path.join(td, "$xxx_gctf.star" if case["ctf"] == "gctf" else "$xxx_ctffind4.txt")
             if "ctf_file_type" not in omit:
@@ -2568,10 +2653,10 @@ def judge_load_in(case, obs, resp):
             out.append(_raised(got, "loader-raises", f"{case['sub']} {case['input']} {case.get('ext', '')}: {got['raise']}"))
             return out
         if obs.get("input_unchanged") is False:
-            out.append(dict(kind="spec", clause="caller-input-mutated", detail=f"{case['sub']}: the {case['input']} passed in was edited in place"))
+            out.append(dict(kind="corr", clause="caller-input-mutated", detail=f"{case['sub']}: the {case['input']} passed in was edited in place"))
         for key, dt in obs.get("dtypes", {}).items():
             if not _numeric_dtype(dt):
-                out.append(dict(kind="spec", clause="loader-dtype", detail=f"{case['sub']} {case['input']} {case.get('ext', '')}: returned dtype {dt}, not a numeric one"))
+                out.append(dict(kind="corr", clause="loader-dtype", detail=f"{case['sub']} {case['input']} {case.get('ext', '')}: returned dtype {dt}, not a numeric one"))
         if case.get("times"):
             # documented route outside the statement (no prior dose in the file): corr, and the model (prior + exposure) has no value here
             if len(got) != len(want) or any(not _close(g, w, F64) for g, w in zip(got, want)):
@@ -2598,7 +2683,7 @@ def judge_load_in(case, obs, resp):
         if not obs.get("same_object"):
             out.append(dict(kind="corr", clause="defocus-frame-not-as-given", detail="a DataFrame input is not returned as is"))
         if obs.get("input_unchanged") is False:
-            out.append(dict(kind="spec", clause="caller-input-mutated", detail="defocus_load edited the DataFrame passed in"))
+            out.append(dict(kind="corr", clause="caller-input-mutated", detail="defocus_load edited the DataFrame passed in"))
         d = _cmp_table(got, DEF_COLS, want, {c: F64 for c in DEF_COLS}, "defocus_load(DataFrame)")
         if d:
             out.append(dict(kind="spec", clause="defocus-frame-values", detail=d))
@@ -2671,7 +2756,7 @@ def judge_load(case, obs, resp):
         return judge_load_in(case, obs, resp)
     for key, dt in obs.get("dtypes", {}).items():
         if not _numeric_dtype(dt):
-            out.append(dict(kind="spec", clause="loader-dtype", detail=f"{case['sub']} {key}: returned dtype {dt}, not a numeric one"))
+            out.append(dict(kind="corr", clause="loader-dtype", detail=f"{case['sub']} {key}: returned dtype {dt}, not a numeric one"))
 
     def same(got, want, widths=(24, 53)):
         return len(got) == len(want) and all(_is_nearest(g, w, widths) for g, w in zip(got, want))
@@ -2728,9 +2813,9 @@ def judge_wedge(case, obs, resp, resp1=None):
     want, em = _expected_wedge(case)
     B = obs["batch"]
     if obs.get("inputs_changed"):
-        out.append(dict(kind="spec", clause="caller-input-mutated", detail=f"create_wedge_list_sg_batch edited its argument(s) {obs['inputs_changed']} in place"))
+        out.append(dict(kind="corr", clause="caller-input-mutated", detail=f"create_wedge_list_sg_batch edited its argument(s) {obs['inputs_changed']} in place"))
     if obs.get("single_inputs_changed"):
-        out.append(dict(kind="spec", clause="caller-input-mutated", detail=f"create_wedge_list_sg edited its argument(s) {obs['single_inputs_changed']} in place"))
+        out.append(dict(kind="corr", clause="caller-input-mutated", detail=f"create_wedge_list_sg edited its argument(s) {obs['single_inputs_changed']} in place"))
     if want is None:
         if "raise" not in B:
             # (G6) refusing inconsistent inputs is documented behaviour (check_data_consistency), not a clause of the statement: corr
@@ -2753,7 +2838,7 @@ def judge_wedge(case, obs, resp, resp1=None):
         if d:
             out.append(dict(kind="spec", clause="wedge-rows", detail=d))
         if not obs.get("index_ok", True):
-            out.append(dict(kind="spec", clause="wedge-index", detail="row index of the batch table is not 0..n-1"))
+            out.append(dict(kind="corr", clause="wedge-index", detail="row index of the batch table is not 0..n-1"))
         loose = {cname: STAR for cname in WEDGE_COLS}
         d = _cmp_table(obs["star"], cols, wrows, loose, "wedge list STAR file re-read")
         if d:
@@ -2967,7 +3052,7 @@ def judge_g2(case, obs, resps):
         for k, (call, mod) in enumerate(zip(obs["calls"], resps)):
             what = f"call {k + 1} of {len(obs['calls'])} with the same index array {case['idx']} (numbered_from_1={case['from1']})"
             if call["idx_after"] != case["idx"]:
-                out.append(dict(kind="spec", clause="caller-array-mutated",
+                out.append(dict(kind="corr", clause="caller-array-mutated",
                                 detail=f"{what}: the caller's {call['idx_type']} was {call['idx_before']} before and {call['idx_after']} after the call"))
             if "fresh" not in call or "raise" in call.get("fresh", {}):
                 out.append(_raised(call.get("after", {"raise": "?"}), "reader-raises", what)); continue
@@ -3178,7 +3263,7 @@ def judge(case, obs, resps):
 
 
 def classify(case, obs, finding):
-    if finding.get("clause") == "mdoc-roundtrip" and finding.get("k1"):
+    if finding.get("clause") in ("mdoc-roundtrip", "written-omits-removed") and finding.get("k1") and finding.get("kind") == "spec":
         return "C17-K1"
     if finding.get("clause") == "written-omits-removed" and finding.get("all_removed") and finding.get("kind") == "spec":
         return "C17-K4"
